@@ -1,17 +1,13 @@
-# Per-property build/run table used by tools/check.py.
-PROPS = {
-    "C01": {
-        "ready": True,
-        "sources": ["c01.cpp"], "lib": ["half.cpp"],
-        "technique": "exhaustive enumeration of all 2^32 + 2^16 bit patterns against a definition-level binary16 model and the F16C hardware",
-        "level_text": "Every one of the 2^16 half and 2^32 float bit patterns is run through the real conversion code (C functions, C++ constructor and cast, round trip) and compared with an independent definition-level model of binary16 round-to-nearest-even and with the CPU's F16C converter; the input space is finite and is enumerated completely in the quick tier, so this decides the property for the default build configuration.",
-        "level_note": "Trusts the reference model (self-checked against a binary-search formulation on all decision boundaries), x86-64 long double/double arithmetic and, where present, the F16C instructions; covers the repository's default configuration only (other back-ends: C02).",
-        "deadline": {"quick": 240, "thorough": 900},
-        "rule": "exhaustive enumeration of all 2^16 half and all 2^32 float bit patterns on the real conversion code "
-                "(C functions and C++ constructor/cast); non-trivial = input is, by a predicate on the input bits, an exact "
-                "tie, has a subnormal result, lies within the overflow [65504,65536] or flush [2^-25,2^-24] windows, or is a NaN "
-                "(classes counted separately; 'generic' excluded)",
-        "assumptions": ["long double has a 64-bit significand (x86-64), so every float, half value and midpoint is exact in the oracle",
-                        "harness compiled with the repository's default configuration (lookup table); other back-ends are C02"],
-    },
-}
+# Per-property build/run table used by tools/check.py and tools/gen_manifest.py.
+# One fragment per property in tools/props.d/Cxx.py defining SPEC = {...}:
+#   ready        True once both tiers have been run end-to-end on the unchanged tree
+#   sources      harness TUs under /verif/harness (compiled in parallel)
+#   lib          which of the repository's library .cpp files to compile in (default: all five)
+#   flags/ldflags/cxx  extra compiler settings
+#   deadline     {"quick": seconds, "thorough": seconds} global deadline handed to the harness
+#   custom       name of a module in tools/ with main(prop, tier, seed, replay) replacing the generic C++ flow
+#   rule, assumptions, technique, level_text, level_note   evidence / manifest texts
+import glob, os, runpy
+PROPS = {}
+for _f in sorted(glob.glob(os.path.join(os.path.dirname(os.path.abspath(__file__)), "props.d", "C*.py"))):
+    PROPS[os.path.basename(_f)[:-3]] = runpy.run_path(_f)["SPEC"]
